@@ -1,3 +1,45 @@
-// unit boxes: harnesses for sdk/src/jumbf/boxes.rs (included by the cfg(kani) hook at the end of that file)
+// unit boxes: sdk/src/jumbf/boxes.rs (included by the cfg(kani) hook at the end of that file)
+// C10 (resource guards): bounded JUMBF nesting and a total box-header decoder
 #[allow(unused_imports)]
 use super::*;
+
+// complete: for every depth at or above the limit the parser refuses before it reads anything (no recursion, no allocation)
+#[kani::proof]
+#[kani::unwind(3)]
+fn c10_jumbf_depth_guard() {
+    let depth: usize = kani::any();
+    kani::assume(depth >= BoxReader::MAX_JUMB_DEPTH);
+    let data = [0u8; 4];
+    let mut cur = Cursor::new(&data[..]);
+    let r = BoxReader::read_super_box_impl(&mut cur, depth);
+    assert!(matches!(r, Err(JumbfParseError::BoxNestingTooDeep)), "nesting at or beyond MAX_JUMB_DEPTH is refused");
+    assert!(cur.position() == 0, "nothing is read before the depth check");
+    std::mem::forget(r);
+}
+
+// complete: read_header is total on any 16 bytes of any length 0..=16 and decodes size / type / largesize
+#[kani::proof]
+#[kani::unwind(18)]
+fn c10_read_header_total() {
+    let data: [u8; 16] = kani::any();
+    let len: usize = kani::any();
+    kani::assume(len <= 16);
+    let mut cur = Cursor::new(&data[..len]);
+    let r = BoxReader::read_header(&mut cur);
+    if len == 0 {
+        assert!(matches!(&r, Ok(h) if h.name == BoxType::Empty && h.size == 0), "end of stream is the Empty header");
+    }
+    if len >= 8 {
+        let size = u32::from_be_bytes([data[0], data[1], data[2], data[3]]);
+        if size != 1 {
+            assert!(matches!(&r, Ok(h) if h.size == size as u64), "32-bit size decoded");
+        } else if len == 16 {
+            let large = u64::from_be_bytes([data[8], data[9], data[10], data[11], data[12], data[13], data[14], data[15]]);
+            assert!(matches!(&r, Ok(h) if h.size == large), "64-bit largesize decoded");
+        } else {
+            assert!(r.is_err(), "truncated largesize is an error");
+        }
+    }
+    kani::cover!(len == 16 && data[3] == 1 && data[0] == 0 && data[1] == 0 && data[2] == 0, "largesize header reachable");
+    std::mem::forget(r);
+}
